@@ -204,7 +204,7 @@ def nativeKernels : List (String × List String) :=
       "write:2||OUT[L0]+=fabs(X[L0,L1]-Y[L1])",
       "ret:OUT.reshape(-1,1)"])]
 
-/-- the same with the overflow repair of `/tmp/fix-proposals/C13-overflow.diff` -/
+/-- the same with the overflow repair of `proposals/C13-overflow.diff` -/
 def repairedKernels : List (String × List String) :=
   [("_euclidean", ["dec:boundscheck(False)",
       "dec:wraparound(False)",
